@@ -1182,9 +1182,9 @@ def model(ex, st, c, args):
     D = ex.deref_all
     if c.startswith(('std::option::Option::', 'core::option::Option::', 'std::result::Result::', 'core::result::Result::')):
         c = c.split('::', 2)[2]
-    if ' as std::' in c or ' as core::' in c:
-        # fully qualified trait paths (as printed for function pointers such as `PartialOrd::gt`): same models as the short form
-        c = re.sub(r' as (?:std|core)::(?:cmp|ops|convert|iter|clone|default|fmt|str|string)::(?:\w+::)*(\w+)', r' as \1', c)
+    if ' as std::cmp::' in c or ' as core::cmp::' in c:
+        # fully qualified comparison traits (as printed for function pointers such as `PartialOrd::gt`): same models as the short form
+        c = re.sub(r' as (?:std|core)::cmp::(\w+)', r' as \1', c)
     B = lambda options: ex.branch(st, options)
 
     # ----- control / error plumbing
